@@ -2,10 +2,10 @@ package main
 
 import (
 	"fmt"
-	"regexp"
-	"sort"
 	"go/token"
 	"go/types"
+	"regexp"
+	"sort"
 	"strings"
 
 	"golang.org/x/tools/go/ssa"
@@ -727,6 +727,19 @@ func (vc *VC) execCall(fr *Frame, st *State, reach string, instr ssa.Instruction
 		if top.spec != nil && top.spec.DynCalls != nil {
 			tcName = top.spec.DynCalls[n]
 		}
+		if tcName == "" && top == fr && top.spec != nil && len(top.spec.ParamCons) > 0 {
+			// a call through a parameter declared with "funcparam p T"
+			q := ""
+			switch x := common.Value.(type) {
+			case *ssa.Parameter:
+				q = x.Name()
+			case *ssa.UnOp:
+				if al, ok := x.X.(*ssa.Alloc); ok {
+					q = al.Comment
+				}
+			}
+			tcName = top.spec.ParamCons[q]
+		}
 		if tcName == "" {
 			if nt, ok := types.Unalias(common.Value.Type()).(*types.Named); ok {
 				tcName = shortPkg(nt.Obj().Pkg()) + "." + nt.Obj().Name()
@@ -788,6 +801,9 @@ func (vc *VC) execCall(fr *Frame, st *State, reach string, instr ssa.Instruction
 	spec := vc.P.specFor(key, variant)
 	if variant != "" && spec == nil {
 		vc.specErrors = append(vc.specErrors, fmt.Sprintf("%s: no variant %s of %s", fr.key, variant, key))
+	}
+	if spec != nil && !spec.Inline {
+		vc.checkFuncArgs(fr, spec, callee, common, key)
 	}
 	switch {
 	case spec != nil && !spec.Inline:
@@ -1776,4 +1792,91 @@ func (vc *VC) applyDispatch(fr *Frame, st *State, reach string, impls []implSpec
 		}
 	}
 	return res
+}
+
+// checkFuncArgs justifies the assumptions a callee contract makes about its function-typed parameters
+// (bind p = F: the argument is that very function; funcparam p T: the argument's own contract refines T, or it
+// is a parameter of the caller declared with the same type contract). What cannot be justified statically is a
+// contract error of the caller: its obligations are then undecided.
+func (vc *VC) checkFuncArgs(fr *Frame, spec *FuncSpec, callee *ssa.Function, common *ssa.CallCommon, key string) {
+	if callee == nil || (len(spec.Bind) == 0 && len(spec.ParamCons) == 0) {
+		return
+	}
+	top := fr.topFrame()
+	argOf := func(pn string) ssa.Value {
+		off := 0
+		if callee.Signature.Recv() != nil && !common.IsInvoke() {
+			off = 0 // receiver is Params[0] and Args[0]
+		}
+		for i, p := range callee.Params {
+			if p.Name() == pn && i-off < len(common.Args) {
+				return common.Args[i-off]
+			}
+		}
+		return nil
+	}
+	paramOfCaller := func(v ssa.Value) string {
+		switch x := v.(type) {
+		case *ssa.Parameter:
+			return x.Name()
+		case *ssa.UnOp:
+			if al, ok := x.X.(*ssa.Alloc); ok && x.Op == token.MUL {
+				for _, p := range fr.fn.Params {
+					if p.Name() == al.Comment && vc.singleStoreFn(fr, al, 0) == nil {
+						return p.Name()
+					}
+				}
+			}
+		case *ssa.ChangeType:
+			if p, ok := x.X.(*ssa.Parameter); ok {
+				return p.Name()
+			}
+		}
+		return ""
+	}
+	var pns []string
+	for pn := range spec.Bind {
+		pns = append(pns, pn)
+	}
+	for pn := range spec.ParamCons {
+		if _, dup := spec.Bind[pn]; !dup {
+			pns = append(pns, pn)
+		}
+	}
+	sort.Strings(pns)
+	for _, pn := range pns {
+		arg := argOf(pn)
+		if arg == nil {
+			vc.specErrors = append(vc.specErrors, fmt.Sprintf("%s: contract of %s names an unknown parameter %s", fr.key, key, pn))
+			continue
+		}
+		f := vc.staticFn(fr, arg, 0)
+		if want, ok := spec.Bind[pn]; ok {
+			if f == nil || vc.P.fnKeys[f] != want {
+				got := "a value not known statically"
+				if f != nil {
+					got = vc.P.fnKeys[f]
+				}
+				vc.specErrors = append(vc.specErrors, fmt.Sprintf("%s: the contract of %s used at %s is specialised for %s = %s, but the argument is %s", fr.key, key, posOf(fr, common.Value.(ssa.Instruction)), pn, want, got))
+			}
+			continue
+		}
+		want := spec.ParamCons[pn]
+		if f != nil {
+			ok := false
+			for _, s := range vc.P.specs[vc.P.fnKeys[f]] {
+				if s.Refines == want {
+					ok = true
+				}
+			}
+			if !ok {
+				vc.specErrors = append(vc.specErrors, fmt.Sprintf("%s: the contract of %s requires argument %s to refine %s, but %s carries no such contract", fr.key, key, pn, want, vc.P.fnKeys[f]))
+			}
+			continue
+		}
+		if q := paramOfCaller(arg); q != "" && fr == top && top.spec != nil && top.spec.ParamCons[q] == want {
+			continue
+		}
+		vc.specErrors = append(vc.specErrors, fmt.Sprintf("%s: the contract of %s requires argument %s to refine %s; the argument is not a function known statically", fr.key, key, pn, want))
+	}
 }
